@@ -150,6 +150,7 @@ func main() {
 	if r.Counter("very_long_list_files") == 0 {
 		r.Inconclusive("no file with more than 8 recipients was exercised")
 	}
+	lengthSweep(r)
 	r.Finish()
 }
 
